@@ -186,6 +186,9 @@ func libLookup(name string) (libSpec, bool) {
 		return libSpec{"fresh", []int{0}}, true
 	case "maps.Clone", "slices.Clone":
 		return libSpec{"clone", nil}, true
+	case "slices.Contains", "slices.Index", "slices.Equal", "slices.Compare", "slices.IsSorted", "slices.BinarySearch", "slices.Max", "slices.Min":
+		// read their arguments, hand out a scalar (Max / Min: an element - of a comparable, pointer-free ordered type)
+		return libSpec{"fresh", nil}, true
 	case "reflect.ValueOf", "reflect.Indirect":
 		return libSpec{"arg0", nil}, true
 	case "reflect.New", "reflect.MakeSlice", "reflect.MakeMapWithSize", "reflect.MakeMap", "reflect.Zero", "reflect.TypeOf", "reflect.SliceOf", "reflect.MapOf", "reflect.PointerTo", "reflect.DeepEqual":
